@@ -135,4 +135,17 @@ PROPS = {
         'trusted_base': ['_capture_exception / runtime_error.__init__ / ExpandedTraceback: assumed total (bounded only)',
                          'run/call/evaluate bodies around _execute: bounded only'],
     },
+    'C12': {
+        'sidecars': ['contracts/c12_verify.py'],
+        'native': 'c12', 'ground': False,
+        'level': 'proof',
+        'explanation': 'verify() verified from the real source with ast.parse as an abstract callee that returns a tree or '
+                       'raises any Exception class: never raises, attaches a syntax/indentation feedback exactly as often as '
+                       'the parser raised, sets success False then, stores the tree otherwise, and reports blank text exactly '
+                       'when code.strip() is empty. The feedback constructors (line = parser line + offset) and agreement with '
+                       'the real parser are the bounded stand-in B-verify.',
+        'trusted_base': ['ast.parse outcome shapes (SyntaxError fields) as observed on CPython 3.12',
+                         'syntax_error / indentation_error / blank_source constructors: abstract (ghost counters); their line '
+                         'arithmetic is bounded only', 'str.strip uninterpreted'],
+    },
 }
